@@ -136,6 +136,42 @@ pub fn displaced_group_script(rng: &mut Rng) -> std::collections::VecDeque<Strin
     out
 }
 
+/// Scripted construction (needs the `sequential` plan) of two maps with DIFFERENT bucket counts and EQUAL
+/// `capacity()`: `small` gets `n` buckets (capacity 7n/8), `large` gets `2n` buckets, is filled to its load
+/// limit and loses 7n/8 elements from inside a run of full buckets (tombstones: growth_left stays 0, so
+/// capacity() = len = 7n/8). Then clone_from in one direction, look-ups, clone_from in the other.
+pub fn capacity_twin_script(rng: &mut Rng) -> std::collections::VecDeque<String> {
+    let w = hashbrown::verif::GROUP_WIDTH;
+    let n = 2 * w;
+    let cap_s = hashbrown::verif::bucket_mask_to_capacity(n - 1);
+    let cap_l = hashbrown::verif::bucket_mask_to_capacity(2 * n - 1);
+    let (small, large) = if rng.chance(1, 2) { ("a", "b") } else { ("b", "a") };
+    let mut out = std::collections::VecDeque::new();
+    out.push_back(format!("{} with_capacity {}", small, cap_s));
+    for j in 0..rng.below(4) as usize {
+        out.push_back(format!("SINS {} {}", small, 2 * n * 3 + j));
+    }
+    out.push_back(format!("{} with_capacity {}", large, cap_l));
+    for j in 0..cap_l {
+        out.push_back(format!("SINS {} {}", large, j));
+    }
+    for j in w..w + (cap_l - cap_s) {
+        out.push_back(format!("{} remove {}", large, j));
+    }
+    let first = if rng.chance(1, 2) { small } else { large };
+    let second = if first == small { large } else { small };
+    out.push_back(format!("{} clone_from", first));
+    for j in [0usize, w - 1, w, cap_l - 1] {
+        out.push_back(format!("{} get {}", first, j));
+    }
+    out.push_back(format!("{} eq", first));
+    out.push_back(format!("SINS {} {}", first, 2 * n * 5));
+    out.push_back(format!("{} clone_from", second));
+    out.push_back(format!("{} eq", second));
+    out.push_back(format!("{} get {}", second, 2 * n * 5));
+    out
+}
+
 /// Scripted construction (needs the `const0` plan: every key hashes to 0, so insertion order = probe
 /// order) of a 128-bucket table in which the in-place rehash meets an element whose ideal group is
 /// visited EARLIER by the triangular probe but lies LATER in linear order than the group it sits in:
@@ -297,6 +333,12 @@ impl Gen {
             if let Some(k) = op.strip_prefix("TINS ") {
                 let id = self.id();
                 return format!("a insert_unique {} {} {}", k, id, 100 + self.rng.below(50));
+            }
+            if let Some(rest) = op.strip_prefix("SINS ") {
+                // plain insert into the named side
+                let (side, k) = rest.split_once(' ').unwrap();
+                let (kid, vid) = (self.id(), self.id());
+                return format!("{} insert {} {} {} {}", side, k, kid, vid, 100 + self.rng.below(50));
             }
             if let Some(k) = op.strip_prefix("EINS ") {
                 // insertion of an absent key through `RawTable::insert` (probe, reserve, probe again)
